@@ -240,7 +240,11 @@ package types
 // pure helpers whose result is not used by any property: nothing is assumed about them except that they touch no module state
 //@ func checkDuplicateProviders
 //@ vars types.checkDuplicateProviders: providers=[]github.com/cosmos/cosmos-sdk/types.AccAddress#0 providerArr=[]string#0 i=int#0 provider=github.com/cosmos/cosmos-sdk/types.AccAddress#0
-//@ trusted
+//@ props C20 C18
+//@ theory coins keys
+//@ loop 0 invariant seen: 0 <= iter && iter <= len(providers) && len(providerArr) == len(providers)
+//@ loop 0 invariant texts_so_far: forall j Int :: 0 <= j && j < iter ==> providerArr[j] == bech32(providers[j])
+//@ ensures [C20,C18] rejects_exactly_a_repeated_provider: (result == NoErr) <==> (forall i Int, j Int :: 0 <= i && i < j && j < len(providers) ==> providers[i] != providers[j])
 
 //@ func ValidateServiceName
 //@ vars types.ValidateServiceName: name=string#0
@@ -322,7 +326,7 @@ package types
 //@ vars (types.MsgBindService).ValidateBasic: msg=github.com/irismod/service/types.MsgBindService#0 err=error#0 err=error#1 err=error#2 err=error#3 err=error#4 err=error#5
 //@ props C20 C03
 //@ ensures [C20,C03] deposit_has_no_negative_amount: err == NoErr ==> (forall d Str :: {amt(msg.Deposit, d)} amt(msg.Deposit, d) >= 0)
-//@ ensures [C20,C15] provider_present: err == NoErr ==> len(msg.Provider) > 0
+//@ ensures [C20,C15] provider_and_owner_present: err == NoErr ==> len(msg.Provider) > 0 && len(msg.Owner) > 0
 
 //@ func (MsgUpdateServiceBinding).ValidateBasic
 //@ vars (types.MsgUpdateServiceBinding).ValidateBasic: msg=github.com/irismod/service/types.MsgUpdateServiceBinding#0 err=error#0 err=error#1 err=error#2 err=error#3 err=error#4
